@@ -247,7 +247,12 @@ def oracle(ctx: vlib.Ctx, n_schemas: int, n_values: int, focus: str | None = Non
         dialect_mode = rng.random() < 0.3
         S = L.Schema(rng, jsonkind, dialect_mode=dialect_mode)
         depth = rng.choice([1, 2, 2, 3])
-        root = S.new_dc(depth, root=True)
+        if rng.random() < 0.14:
+            # the root is a subclass (adding fields) of a self-referencing class
+            sb = S.new_dc(max(depth - 1, 1), force_self=True)
+            root = S.new_dc(depth, root=True, base=sb.name)
+        else:
+            root = S.new_dc(depth, root=True)
         xds = rng.sample(L.USER_DIALECTS, 2) if dialect_mode else []
         opts = 0
         if jsonkind == "orjson" and rng.random() < 0.5:
@@ -595,7 +600,7 @@ def run(ctx: vlib.Ctx):
     correspondence(ctx)
     broken = bool(ctx.unshown)
     names_oracle(ctx)
-    n_s, n_v = ctx.budget(160, 850), ctx.budget(5, 8)
+    n_s, n_v = ctx.budget(140, 800), ctx.budget(5, 8)
     if broken:      # a proof obligation or the correspondence broke: search harder for a failing input
         n_s = ctx.budget(260, 3000)
     law_fail = oracle(ctx, n_s, n_v)
